@@ -229,12 +229,22 @@ func Run(c *Case, m Mode) *Hist {
 	}
 	childCtx := context.WithValue(rootCtx, ctxKey{}, "child")
 	backCtx := context.WithValue(context.Background(), ctxKey{}, "back")
+	ownCtx := make([]context.Context, len(jobs))
+	ownCancel := make([]context.CancelFunc, len(jobs))
+	for j := range jobs {
+		if jobs[j].Ctx == COwn {
+			ownCtx[j], ownCancel[j] = context.WithCancel(context.WithValue(context.Background(), ctxKey{}, "own"))
+			defer ownCancel[j]()
+		}
+	}
 	ctxFor := func(j int) context.Context {
 		switch jobs[j].Ctx {
 		case CChild:
 			return childCtx
 		case CBack:
 			return backCtx
+		case COwn:
+			return ownCtx[j]
 		}
 		return rootCtx
 	}
@@ -335,6 +345,9 @@ func Run(c *Case, m Mode) *Hist {
 			h.inflight.Add(-1)
 			h.EndSeq[j].Store(seq.Add(1))
 			doneOnce[j].Do(func() { close(done[j]) })
+			if jb.Ctx == COwn {
+				ownCancel[j]()
+			}
 			switch jb.Beh {
 			case BErr, BCancelErr:
 				return h.Errs[j]
